@@ -1,4 +1,4 @@
-SPECIFICATION Spec
+SPECIFICATION SpecAtomic
 CONSTANTS
   SlotsPerEpoch = 32
   Slots = {0, 31, 32, 33, 100, 1000000007}
@@ -10,5 +10,6 @@ CONSTANTS
   HistOps = {}
   HistKinds = {}
   HistFails = {}
-INVARIANTS TypeOK DomainRight Memoryless SigCorrect NoSignatureWithoutDomain ErrorHasNoSignatures
+INVARIANTS TypeOK DomainRight Memoryless HandedOwn SigCorrect NoSignatureWithoutDomain ErrorHasNoSignatures
+PROPERTIES ReplyStable
 CHECK_DEADLOCK FALSE
